@@ -219,7 +219,48 @@ def unit_fixed_pipelines(ctx):
                       {"model": name, "mode": "fixed"}, {"kind": "fixed_" + name, "args": list(a), "kwargs": kw}, {"out": out, "calls": [l[0] for l in log]}, {"out": ["x"] + roles},
                       f"{name} pipeline does not run its components in the declared order, each exactly once", "c17:check_fixed")
             ctx.nontrivial("fixed", name, str(a), str(kw))
+    for has_q, has_s, has_c, given in itertools.product((False, True), repeat=4):
+        for a, kw in (((), {}), ((5,), {"snr": 3})):
+            check_wyner_ziv(ctx, None, {"quantizer": has_q, "syndrome": has_s, "constraint": has_c, "side_info_given": given, "args": list(a), "kwargs": kw})
     ctx.sample({"pipelines": ["sequential 0..6 stages", "deepjscc", "channel_code"], "args": "(), (1,), snr=3, (1,2)+snr+csi"})
+
+
+def check_wyner_ziv(ctx, cell, case):
+    """WynerZivModel with recording stages: every combination of its optional stages (quantizer, syndrome generator, constraint), side information
+    given or generated by the correlation model: documented order, each present stage exactly once, arguments forwarded as documented."""
+    from kaira.models.wyner_ziv import WynerZivModel
+    has_q, has_s, has_c, given, a, kw = case["quantizer"], case["syndrome"], case["constraint"], case["side_info_given"], tuple(case["args"]), dict(case["kwargs"])
+    cell = cell or {"model": "wyner_ziv", "quantizer": has_q, "syndrome_generator": has_s, "constraint": has_c, "side_info": "given" if given else "generated"}
+    log = []
+
+    class Dec:
+        def __call__(self, x, side, *args, **kwargs):
+            log.append(("decoder", list(x), list(side), tuple(args), dict(kwargs)))
+            return list(x) + ["decoder"]
+
+    class Corr:
+        def __call__(self, src):
+            log.append(("correlation", list(src)))
+            return ["side_of"] + list(src)
+    m = WynerZivModel(Rec(log, "encoder"), Rec(log, "channel"), Dec(), correlation_model=Corr(), quantizer=Rec(log, "quantizer") if has_q else None,
+                      syndrome_generator=Rec(log, "syndrome") if has_s else None, constraint=Rec(log, "constraint") if has_c else None)
+    ok, out = ctx.call(lambda: m(["x"], ["given_side"] if given else None, *a, **kw), "C17.raises", cell, case, checker="c17:check_wyner_ziv")
+    if not ok:
+        return
+    ctx.ev()
+    exp, cur = [], ["x"]
+    for sid, present, with_args in (("encoder", True, True), ("quantizer", has_q, True), ("syndrome", has_s, True), ("constraint", has_c, False), ("channel", True, True)):
+        if present:
+            exp.append((sid, list(cur), a if with_args else (), kw if with_args else {}))
+            cur = cur + [sid]
+    side = ["given_side"] if given else ["side_of", "x"]
+    if not given:
+        exp.append(("correlation", ["x"]))
+    exp.append(("decoder", list(cur), side, a, kw))
+    ctx.check(log == exp and out == cur + ["decoder"], "C17.w_wyner_ziv_order", cell, case, {"calls": [l[0] for l in log], "output": out}, {"calls": [e[0] for e in exp], "output": cur + ["decoder"]},
+              "Wyner-Ziv pipeline does not run its present stages in the documented order, each exactly once, with arguments forwarded", "c17:check_wyner_ziv")
+    ctx.nontrivial("wz", has_q, has_s, has_c, given, str(a), str(kw))
+    ctx.cls("wyner_ziv_cases")
 
 
 def check_fixed(ctx, cell, case):
